@@ -1912,7 +1912,7 @@ def positional_form(F, chain, I=("i",)):
         return None
     name = t[1].split("{")[0]
     a = t[2]
-    if len(a) == 1 and re.search(r"(::into_iter|Iterator>?::(copied|cloned|by_ref|fuse)|::iter_mut|::iter)$", name):
+    if len(a) == 1 and re.search(r"(::into_iter|Iterator>?::(copied|cloned|by_ref|fuse|collect)|Itertools::collect_vec|::iter_mut|::iter|::into_boxed_slice|::to_vec|::into_vec)$", name):
         inner = positional_form(F, a[0], I)
         if inner is not None:
             return inner
@@ -1940,6 +1940,58 @@ def positional_form(F, chain, I=("i",)):
         v = substitute_closure(Terms(cb).return_term(), a[1][2], (inner[0],))
         return proj_simplify(clean(v)), inner[1]
     return None
+
+
+
+def sequence_form(F, body, t, I=("i",)):
+    """positional reading of a collection value inside `body`: an iterator chain (positional_form), or a vector that a loop of
+    `body` fills with exactly one push per turn (`for x in src { v.push(f(x)) }` reads as src.map(f)).  Returns
+    (element at position I, set of length terms) or None."""
+    t = clean(t)
+    pf = positional_form(F, t, I)
+    if pf is not None:
+        return proj_simplify(pf[0]), pf[1]
+    base = t
+    while base[0] == "call" and len(base[2]) == 1 and re.search(r"(::into_iter|::iter|::iter_mut|Iterator>?::(copied|cloned|collect)|::into_boxed_slice|::to_vec)$", base[1].split("{")[0]):
+        base = base[2][0]
+    for e in elementwise_builds(body):
+        if e["form"] != "loop" or not e.get("sink", "").endswith("::push") or clean(e["sink_recv"]) != base:
+            continue
+        src = positional_form(F, clean(e["src"]), I)
+        if src is None or len(e["values"]) != 1:
+            continue
+        v = rewrite(clean(e["values"][0]), lambda y: src[0] if y == ("elem",) else None)
+        return proj_simplify(v), src[1]
+    return None
+
+
+def none_is_err(body, call, tm=None):
+    """every returning path of `body` on which the Option produced by `call` is None returns an Err value"""
+    tm = tm or Terms(body)
+    st = clean(tm.call_term(call.term, call.bb))
+    seen = False
+    if body.natural_loops():
+        # inside a loop: read the rows of the loop that holds the call
+        lp = innermost_loop(body, call.bb)
+        if lp is None:
+            return False
+        for r in iteration_table(body, lp[0]):
+            for dt, l, _ in r.conds:
+                names = set(l[1]) if isinstance(l, tuple) else {l}
+                if clean(dt) == ("discr", st) and names == {"None"}:
+                    seen = True
+                    if not (r.kind == "return" and r.ret is not None and (is_err_value(deep_strip(r.ret)) or result_variant(nosite(r.ret)) == "Err")):
+                        return False
+        return seen
+    for r in table(body, max_paths=20000):
+        if r.end != "return":
+            continue
+        for k, v in r.sel.items():
+            if clean(k) == st and v == "None":
+                seen = True
+                if not is_err_value(r.ret) and result_variant(r.ret) != "Err":
+                    return False
+    return seen
 
 
 def proj_simplify(t):
